@@ -743,7 +743,26 @@ def l7(model: Model, rep: Report):
     lastv = ("sub", ("attr", s, "_added_operations"), ("lin", (), -1))
     from fractions import Fraction
     lastv = ("sub", ("attr", s, "_added_operations"), ("lin", (), Fraction(-1)))
-    rep.check(len(rets) == 1 and rets[0].value == lastv, "C02.L7", "DeclarativeCircuit.get_last_entry", f.loc, found=[show(p.value) for p in rets], required="self._added_operations[-1]",
+    from ..sym import number as _num, NONE as _NONE
+    from .common import devar as _devar
+
+    def _is_last(v):
+        v = _devar(v) if v is not None else v
+        if v == lastv:
+            return True
+        # xs[-1:][0]: the one-element tail, then its element
+        if v is not None and v[0] in ("sub", "item") and (v[2] == 0 or (isinstance(v[2], tuple) and _num(v[2]) == 0)):
+            b_ = _devar(v[1])
+            if b_[0] == "slice" and len(b_) == 5 and b_[1] == lastv[1] and _num(b_[2]) == -1 and b_[3] == _NONE and b_[4] in (_NONE, ("lin", (), Fraction(1))):
+                return True
+        return False
+    if len(rets) == 1 and not _is_last(rets[0].value):
+        v_ = _devar(rets[0].value) if rets[0].value is not None else None
+        plain_index = v_ is not None and v_[0] in ("sub", "item") and _devar(v_[1]) == lastv[1] and (isinstance(v_[2], int) or _num(v_[2]) is not None)
+        other_list = v_ is not None and v_[0] in ("sub", "item") and "_added_operations" not in show(_devar(v_[1]))   # an element of some other container
+        if not plain_index and not other_list and v_ is not None and "_added_operations" in show(v_):
+            raise AnalysisError(f"DeclarativeCircuit.get_last_entry: {show(v_)[:120]} is not read as the last recorded entry (nor as another fixed position)")
+    rep.check(len(rets) == 1 and _is_last(rets[0].value), "C02.L7", "DeclarativeCircuit.get_last_entry", f.loc, found=[show(p.value) for p in rets], required="self._added_operations[-1]",
               what="get_last_entry does not report the most recently added entry", detail="last-entry")
     # dispatch of IDeclarativeCircuit.add
     I = model.cls("IDeclarativeCircuit")
